@@ -670,6 +670,7 @@ class Circuit:
             raise EdzedInvalidState(msg)
         await _test_eager_tasks()
         self._simtask = asyncio.current_task()
+        self._init_done = asyncio.Event()   # wait_init() needs it as soon as the task is registered
         started_blocks = set()
         start_ok = False
         try:
@@ -680,7 +681,6 @@ class Circuit:
 
             self.log_debug("Initializing the circuit")
             self.sblock_queue = asyncio.Queue()
-            self._init_done = asyncio.Event()
             self._check_persistent_data()
             self._resolver.resolve()
             self.finalize()
